@@ -5,6 +5,7 @@ R2 gone collector / poisoned lock => error, closure not run
 R3 no stale copy: every trait method of reload::Subscriber takes the read lock in that call; degraded answers on poison
 R4 (via C01.R5/R7) the rebuild re-evaluates every callsite and the max level
 """
+from rulekit.query import rebuild_interest_path
 from rulekit import Facts, where
 from rulekit.sym import PathEval, show
 
@@ -233,12 +234,12 @@ def r3(ck, F, rid="C12.R3"):
 def r4(ck, F):
     ric = F.body("tracing_core::callsite::inner::rebuild_interest_cache")
     if ck.anchor("C12.R4", "rebuild_interest_cache", ric):
-        rb = [bb for bb, t in ric.calls() if t["callee"].get("path") == "tracing_core::callsite::inner::rebuild_interest"]
+        rb = [bb for bb, t in ric.calls() if t["callee"].get("path") == rebuild_interest_path(F)]
         if len(rb) == 1 and ric.postdominates(rb[0], 0):
             ck.ok("C12.R4", "rebuild_interest_cache runs rebuild_interest on every path", fn=ric.path)
         else:
             ck.bad("C12.R4", "rebuild_interest_cache runs rebuild_interest on every path", where(ric.raw["sp"]), "rebuild_interest not on every path")
-    ri = F.body("tracing_core::callsite::inner::rebuild_interest")
+    ri = F.body(rebuild_interest_path(F))
     if ck.anchor("C12.R4", "rebuild_interest", ri):
         names = [t["callee"].get("method") for bb, t in ri.calls()]
         if "for_each" in names and "set_max" in names:
